@@ -209,6 +209,13 @@ namespace detail
 class _CppTranslator(TranslatorBase):
     block_template = CPP_SOURCE_TEMPLATE
 
+    @classmethod
+    def _block_post_process(cls, content, base_name, nodes):
+        if not nodes:
+            # a file without definitions: its header opens no prophy::generated namespace that could be used here
+            return '#include "{}.ppf.hpp"\n'.format(base_name)
+        return super(_CppTranslator, cls)._block_post_process(content, base_name, nodes)
+
     def translate_enum(self, node):
         # enumerators may repeat a value; a switch may not: the last name stands for the value, as in the Python codec
         last_name = {m.value: m.name for m in node.members}
